@@ -106,8 +106,8 @@ CLAIMED["C03"] = dict(
          "psf_binheader_readf calls (hypotheses read-size>=0 and SEEK_SET position>=0 proved necessary, met at every call site); psf_open_file's tail: a non-NULL "
          "result has 1<=channels<=1024, samplerate>=1, frames>=0, sections>=1, non-zero container and codec fields for an ARBITRARY parser result, a NULL result has "
          "sf_errno != 0 and a non-empty message (error table extracted from the running library); the 8 read wrappers ask the codec for exactly the caller's "
-         "capacity, zero-fill only inside the buffer, return within [0, requested]; sf_seek passes positions in [0, frames]. Five defects of the current tree are proved as counter-examples with partial theorems and reported as KNOWN-FINDING (SDS block scan and the IFF-family chunk loops never ending on a pipe; SVX backward chunk jump looping on every route; CAF info chunk on a pipe giving psf_binheader_readf a negative count; NIST unchecked sscanf reading an uninitialised buffer); a sixth (sf_get_chunk_data dividing by zero via virtual I/O) was fixed in /repo c8a9c60 and is now a full-strength theorem. "
-         "Ties: header-cache log events on parametrised AU headers across all growth boundaries, open-gate probes, wrapper/seek scripts (all deterministic families). "
+         "capacity, zero-fill only inside the buffer, return within [0, requested]; sf_seek passes positions in [0, frames]. Three defects of the current tree are proved as counter-examples with partial theorems and reported as KNOWN-FINDING (the IFF-family chunk loops never ending on a pipe; SVX backward chunk jump looping on every route; CAF info chunk on a pipe giving psf_binheader_readf a negative count). Three more found by this check were repaired in /repo (sf_get_chunk_data division by zero c8a9c60, SDS block scan on a pipe 62c7950, NIST unchecked sscanf 6408f3b): they are now full-strength theorems about the current rule, the old rules' failures are kept as `_old_rule` theorems, and their witnesses run first on every run as regression scripts. "
+         "Ties: header-cache log events on parametrised AU headers and on the WAV chunk walk (exact psf_binheader_readf sequences) across all growth boundaries up to the 64 KiB / 100 KiB refusals, open-gate probes, wrapper/seek scripts (all deterministic families). "
          "MONITORED ONLY, not proved: memory safety and termination of the ~25 parsers and the codecs themselves - structure-aware mutations of every writable "
          "(container, encoding) with all metadata chunks, random API scripts, routes vio/fd/pipe, forked children under ASan with a 5 s per-call alarm.",
     technique="Lean 4 theorems over hand-written models (header cache, open gate, read wrappers) + sampled correspondence + sanitizer-monitored structure-aware fuzzing",
